@@ -11,8 +11,11 @@ SMeta = Rec("StateMeta", dict(status=Str, query=Str, is_error=Bool, caching=Bool
                               vars=Opaque("Any"), log=Seq(Opaque("Any")), volatile=Bool, message=Str, mimetype=Opt(Str), type_identifier=Opt(Str), commands=Seq(Opaque("Any")),
                               extended_commands=Seq(Opaque("Any")), attributes=Opaque("Any"), data_characteristics=Opaque("Any")))
 
-classdef("liquer.state.State", fields=dict(data=Data, metadata=SMeta, metadata_only=Bool, exception=Opt(Opaque("Exc")),
-                                            context=Opaque("Any"), status=Opaque("Any")))
+classdef("CommandResult", sealed=True, fields={})      # what a command function may return: a State, or any other object (PlainValue)
+classdef("PlainValue", bases=["CommandResult"], fields={})
+classdef("liquer.state.State", bases=["CommandResult"],
+         fields=dict(data=Data, metadata=SMeta, metadata_only=Bool, exception=Opt(Opaque("Exc")),
+                     context=Opaque("Any"), status=Opaque("Any")))
 classdef("Cache", abstract=True, fields=dict(cmeta=Map(Str, SMeta), cdata=Map(Str, Data)))
 classdef("liquer.cache.MemoryCache", bases=["Cache"], fields=dict(storage=Map(Str, Ref("State"))))
 classdef("liquer.cache.CacheCombine", bases=["Cache"], fields=dict(cache1=Ref("Cache"), cache2=Ref("Cache")))
